@@ -92,6 +92,8 @@ func pwSweep(seed uint64) []scen {
 				add(func(r *pw.PackRun) { r.Writer.CallFault, r.Writer.CallKind, r.Writer.CallSticky = call, k, sticky })
 			}
 		}
+		call := call
+		add(func(r *pw.PackRun) { r.Writer.CallFault, r.Writer.CallKind, r.Writer.CallSticky = call, "partial+eintr", false })
 	}
 	// byte-offset sweep (dense at the start, where the gzip header and first block land, then strided)
 	for off := 0; off < 1200; off += 1 + off/40 {
